@@ -337,3 +337,39 @@ def finish(ctx, level, rule, assumptions, extra_cov=None):
           f"distinct_nontrivial={cov['distinct_nontrivial']} theorems={cov['discharged']}/{cov['obligations']} "
           f"violations={len(ctx.violations)} wall={wall:.1f}s")
     return 1 if ctx.violations else 0
+
+
+def judge_by_spec(ctx, unit, ops, impl_out, model_out, spec_ops, what, corr):
+    """generic verdict: the executable SPEC (Lean) is the oracle for the implementation's answers.
+    impl != spec  -> violation with the smallest such input as replay;
+    impl == spec but impl != model -> correspondence break (no failing input)."""
+    spec_out = run_lines(PVDRIVER, spec_ops)
+    viol = [(o, x, s) for o, x, s in zip(ops, impl_out, spec_out) if x != s]
+    if viol:
+        viol.sort(key=lambda v: len(v[0]))
+        o, x, s = viol[0]
+        report_violation(ctx, f"{unit}:{o[:120]}", {"ops": [o], "impl": x, "spec": s, "more": [v[0] for v in viol[1:10]],
+                         "n_disagreeing": len(viol)},
+                         summary=f"{o[:100]} -> implementation {x[:100]} ; {what} requires {s[:100]}")
+        return True
+    bad = [(o, x, y) for o, x, y in zip(ops, impl_out, model_out) if x != y]
+    if bad:
+        o, x, y = bad[0]
+        report_violation(ctx, "corr:" + unit, {"ops": [b[0] for b in bad[:10]], "impl": x, "model": y, "correspondence": corr,
+                         "explanation": "the implementation still satisfies the executable specification on every generated "
+                         "case but no longer behaves like the model the theorems are about"}, no_input=True,
+                         summary=f"model/impl correspondence ({corr}) broken at {o[:100]}: impl {x[:60]} model {y[:60]}")
+        return True
+    return False
+
+
+def generic_replay(ctx, rp, tool_env=None):
+    if "ops" in rp:
+        ops = rp["ops"]
+        a = run_lines(ctx.impl(), ops, env=san_env())
+        b = run_lines(PVDRIVER, ops)
+        for o, x, y in zip(ops, a, b):
+            print(f"{o}\n  impl : {x}\n  model: {y}")
+    if "argv" in rp:
+        st, out, err = run_tool([ctx.bin(rp["argv"][0])] + rp["argv"][1:], unhx(rp.get("stdin_hex", "-")), env=san_env())
+        print("status", st, "\nstdout", out[:4000], "\nstderr", err[-1500:])
